@@ -73,9 +73,11 @@ def replay_case(item):
             return {'ok': 2, 'obs': None, 'mode': mode}
     kind = ('plainrv0' if i % 4 == 1 else 'plain') if mode == 'plain' else ('ssi' if i % 7 == 3 else 'rv0' if i % 7 == 5 else 'vars')
     extra = batch_obs.PB if mode == 'pb' else ''
+    if mode == 'batch' and kind in ('vars', 'rv0') and par[2] <= 0 and par[3] >= 1 and i % 3 == 2:
+        extra = batch_obs.NEST
     obs = batch_obs.observe(par, kind=kind, seqkind=seqkind, as_str=(i % 2 == 1), extra=extra)
     obs['np'] = 0
-    obs['variant'] = [kind, seqkind, mode]
+    obs['variant'] = [kind, seqkind, mode + ('+nested' if extra == batch_obs.NEST else '')]
     same = obs['e'] == e and obs['c'] == c and (c == 1 or (obs['r'] == rows and obs['pl'] == pulled)) \
         and obs['ln'] == 0
     return {'ok': int(same), 'obs': obs if (not same or not strict or i % 41 == 0) else None, 'mode': mode}
